@@ -371,7 +371,7 @@ func check(c Case, st *rig.Stats) error {
 }
 
 var stats = rig.NewStats("C17",
-	"rapid draws a table (history of 1-12 steps over a witness-safe pool, one case in six with a single route) and 1-5 Handle calls engineered to be rejected (reserved / unknown / duplicate method inserted at a drawn position among valid ones, duplicate pattern+method, pattern with an injected syntax fault, pattern renamed in parameter names or '-' flags) or accepted (fresh patterns); the whole observable state (Routes(), handler id / route / params / status / Allow for every live witness x ten methods, for generated ambiguous paths, for the call's own witness, OPTIONS * and GET *) is rendered before and after each call and must be byte-identical when the call panicked. Duplicate pattern+method and a rename of the only route must be rejected; a well-formed pattern not name-equivalent to any live route with valid new methods must be accepted. Non-trivial: a rejected call had a valid method before the offending one or its pattern shares a leading atom with a live route; distinct by hash of the case",
+	"rapid draws a table (history of 1-12 steps over a witness-safe pool, one case in six with a single route) and 1-5 Handle calls engineered to be rejected (reserved / unknown / duplicate method inserted at a drawn position among valid ones, duplicate pattern+method, pattern with an injected syntax fault, pattern renamed in parameter names or '-' flags) or accepted (fresh patterns); the whole observable state (Routes(), handler id / route / params / status / Allow for every live witness x ten methods, for generated ambiguous paths, for the call's own witness, OPTIONS * and GET *) is rendered before and after each call and must be byte-identical when the call panicked. Duplicate pattern+method and a rename of the only route must be rejected; a well-formed pattern not name-equivalent to any live route with valid new methods must be accepted. Non-trivial: a rejected call had a valid method before the offending one or its pattern shares a leading atom with a live route; distinct by hash of the case. Later additions to the generated domain: Unknown method names include padded spellings of the call's own valid methods.",
 	"name equivalence is judged by the harness' own token-wise comparison (same literals, same kind and rule at every parameter position)")
 
 func TestProp(t *testing.T) { rig.RunProp(t, stats, gen, check) }
